@@ -57,6 +57,72 @@ def projection(nodes):
     return out
 
 
+class Pristine(object):
+    """Layouts computed with NO process history: a child forked before this driver has made a single library call serves requests,
+    each in a grandchild of its own (so that nothing computed for one request can reach the next).  'A pure function of the
+    labels and options' must not depend on what the process computed earlier."""
+
+    def __init__(self):
+        import os
+        req_r, req_w = os.pipe()
+        res_r, res_w = os.pipe()
+        sys.stdout.flush()
+        self.pid = os.fork()
+        if self.pid == 0:
+            os.close(req_w)
+            os.close(res_r)
+            fin = os.fdopen(req_r, "r")
+            fout = os.fdopen(res_w, "w")
+            for line in fin:
+                r, w = os.pipe()
+                c = os.fork()
+                if c == 0:
+                    os.close(r)
+                    try:
+                        job = json.loads(line)
+                        g = Force(job["opts"])
+                        fresh = fresh_nodes(job["labels"])
+                        g.nodes(fresh)
+                        g.compute()
+                        out = {"ref": projection(fresh), "err": ""}
+                    except BaseException as ex:
+                        out = {"ref": [], "err": type(ex).__name__}
+                    os.write(w, json.dumps(out).encode())
+                    os._exit(0)
+                os.close(w)
+                data = b""
+                while True:
+                    chunk = os.read(r, 1 << 16)
+                    if not chunk:
+                        break
+                    data += chunk
+                os.close(r)
+                os.waitpid(c, 0)
+                fout.write(data.decode() + "\n")
+                fout.flush()
+            os._exit(0)
+        os.close(req_r)
+        os.close(res_w)
+        self.w = os.fdopen(req_w, "w")
+        self.r = os.fdopen(res_r, "r")
+
+    def layout(self, labels, opts):
+        self.w.write(json.dumps({"labels": labels, "opts": opts}) + "\n")
+        self.w.flush()
+        line = self.r.readline()
+        if not line:
+            raise RuntimeError("pristine-process helper died")
+        return json.loads(line)
+
+    def close(self):
+        import os
+        self.w.close()
+        os.waitpid(self.pid, 0)
+
+
+PRISTINE = None
+
+
 def play(history, sets, perms, scale):
     objs = {k: fresh_nodes(v) for k, v in sets.items()}
     f = Force()
@@ -96,7 +162,8 @@ def play(history, sets, perms, scale):
                 ref = projection(fresh)
             except Exception as ex:  # totality is C11's matter; here it is reported, not hidden
                 err = type(ex).__name__
-            e.update({"res": res, "ref": ref, "err": err,
+            ref0 = PRISTINE.layout(sets[base], to_force_opts(acc, scale)) if PRISTINE is not None else {"ref": ref, "err": ""}
+            e.update({"res": res, "ref": ref, "err": err, "ref0": ref0["ref"], "err0": ref0["err"],
                       "cfg": {"base": base, "mx": acc["mx"], "mn": acc["mn"], "ns": acc["ns"], "alg": acc["alg"], "sw": acc["sw"], "dn": acc["dn"]}})
         ev.append(e)
     return {"ev": ev, "sets": sets, "scale": scale}
@@ -136,7 +203,9 @@ def random_case(rng):
 
 
 def main():
+    global PRISTINE
     job = json.load(sys.stdin)
+    PRISTINE = Pristine()          # before the first library call of this process
     out = []
     if job.get("histories"):
         sets = job.get("sets") or DEFAULT_SETS
@@ -148,6 +217,7 @@ def main():
         for _ in range(job["random"]["count"]):
             h, sets, perms, scale = random_case(rng)
             out.append(play(h, sets, perms, scale))
+    PRISTINE.close()
     json.dump({"records": out}, sys.stdout)
 
 
